@@ -258,7 +258,9 @@ fn directed(ctx: &mut Ctx, pool: &[OwnedFd]) {
     }
     let mut cases: Vec<(String, Fmt, Sig, Vec<u8>)> = Vec::new();
     // deep variant chains (D-Bus): 1 'v' 0 repeated, then a byte
-    for depth in [10usize, 63, 64, 65, 66, 200, 5000] {
+    // (the long chains are what a decoder that stopped counting would recurse on until the stack ends: 3 bytes per level)
+    let long_chain = if cfg!(miri) { 100_000usize } else { 2_000_000 };
+    for depth in [10usize, 63, 64, 65, 66, 200, 5000, 100_000, long_chain] {
         let mut b = Vec::new();
         for _ in 0..depth {
             b.extend_from_slice(&[1, b'v', 0]);
@@ -309,7 +311,7 @@ fn directed(ctx: &mut Ctx, pool: &[OwnedFd]) {
             cases.push((format!("gv-struct-offsets-{:02x}{:02x}", tail[0], tail[1]), Fmt::GVariant, Sig::St(vec![Sig::S, Sig::S, Sig::S]), b));
         }
         // nested variants in GVariant: child, 0, 'v'
-        for depth in [10usize, 64, 65, 70, 5000] {
+        for depth in [10usize, 64, 65, 70, 5000, 100_000, long_chain] {
             let mut b = vec![7u8, 0, b'y'];
             for _ in 0..depth {
                 b.extend_from_slice(&[0, b'v']);
